@@ -196,7 +196,7 @@ static int equal(const NanoValue *v, const RV *r, char *why, size_t wn) {
 }
 
 /* ------------------------------------------------------------------ shared counters */
-enum { C_VALUES, C_SER, C_DESER, C_SMALLBUF, C_PREFIX, C_RAW, C_FAIL, C_N };
+enum { C_VALUES, C_SER, C_DESER, C_SMALLBUF, C_PREFIX, C_RAW, C_FAIL, C_THIN, C_N };
 static volatile unsigned long *g_cnt;
 
 /* exact-size heap region ending exactly at p+size (so that asan flags the first byte past it) */
@@ -243,7 +243,13 @@ static void value_case(unsigned long idx, const char *spec) {
     /* every smaller buffer is refused, nothing is written past it.  The k-byte buffer is the tail of one
      * exact n-byte heap region, so its end coincides with the end of the allocation (asan redzone). */
     uint8_t *tb, *tail = exact_alloc(n, &tb);
+    /* arrays whose encoding exceeds 128 KiB cost O(n * elements) per sweep: the sizes strictly inside
+     * (4096, n - 4096) are thinned to every 251st (reported as thinned=1 in the STAT line) */
+    bool thin = rv->tag == TAG_ARRAY && n > 128u * 1024;
+    if (thin) g_cnt[C_THIN]++;
+#define SKIP(k) (thin && (k) >= 4096 && (k) + 4096 < n && (k) % 251 != 0)
     for (uint32_t k = 0; k < n; k++) {
+        if (SKIP(k)) continue;
         uint32_t r = cop_serialize_value(&v, tail + (n - k), k); g_cnt[C_SER]++; g_cnt[C_SMALLBUF]++;
         if (r != 0) { printf("FAIL serialize-small idx=%lu size=%u/%u ret=%u\n", idx, k, n, r); g_cnt[C_FAIL]++; break; }
     }
@@ -269,6 +275,7 @@ static void value_case(unsigned long idx, const char *spec) {
 
     /* every strict prefix is refused, nothing is read past it (same tail-of-region placement) */
     for (uint32_t k = 0; k < n; k++) {
+        if (SKIP(k)) continue;
         memcpy(tail + (n - k), big, k);
         VmHeap h3; vm_heap_init(&h3);
         NanoValue out = val_void();
@@ -308,8 +315,8 @@ static int cmd_codec(int argc, char **argv) {
         }
         idx++;
     }
-    printf("STAT values=%lu raw=%lu serialize_calls=%lu deserialize_calls=%lu small_buffers=%lu prefixes=%lu fails=%lu\n",
-           g_cnt[C_VALUES], g_cnt[C_RAW], g_cnt[C_SER], g_cnt[C_DESER], g_cnt[C_SMALLBUF], g_cnt[C_PREFIX], g_cnt[C_FAIL]);
+    printf("STAT values=%lu raw=%lu serialize_calls=%lu deserialize_calls=%lu small_buffers=%lu prefixes=%lu thinned=%lu fails=%lu\n",
+           g_cnt[C_VALUES], g_cnt[C_RAW], g_cnt[C_SER], g_cnt[C_DESER], g_cnt[C_SMALLBUF], g_cnt[C_PREFIX], g_cnt[C_THIN], g_cnt[C_FAIL]);
     return 0;
 }
 
